@@ -79,8 +79,9 @@ def run(ctx):
             if ch != chk:
                 x = b + ch
                 evs.append({"id": "cx%d%s" % (i, ord(ch)), "op": "validate_cusip", "id_": x, "out": outb(*call(utils.validate_cusip, x))})
-        for x in (b, full + "0", full[1:]):
-            evs.append({"id": "cl%d%d" % (i, len(x)), "op": "validate_cusip", "id_": x, "out": outb(*call(utils.validate_cusip, x))})
+        for k_, x in enumerate((b, full + "0", full[1:], full + "\n", full + " ", "\n" + full, full + "\r\n", full + "\t")):
+            # (wrong lengths include a valid identifier followed / preceded by a line break or a blank)
+            evs.append({"id": "cl%d_%d" % (i, k_), "op": "validate_cusip", "id_": x, "out": outb(*call(utils.validate_cusip, x))})
         nat = rnd.choice(two + ["", "ZZ", "U"])
         evs.append({"id": "ci%d" % i, "op": "cusip2isin", "id_": full, "nation": cps(nat or "US"),
                     "out": outs(*call(utils.cusip2isin, full, nat or None))})
@@ -110,8 +111,9 @@ def run(ctx):
             if ch != chk:
                 x = b + ch
                 evs.append({"id": "ix%d%s" % (i, ord(ch)), "op": "validate_isin", "id_": x, "out": outb(*call(utils.validate_isin, x))})
-        for x in (b, full + "0", full[1:], "ZZ" + full[2:], "U" + full[1:], full.lower()[:2] + full[2:]):
-            evs.append({"id": "il%d%d%s" % (i, len(x), x[:2]), "op": "validate_isin", "id_": x, "out": outb(*call(utils.validate_isin, x))})
+        for k_, x in enumerate((b, full + "0", full[1:], "ZZ" + full[2:], "U" + full[1:], full.lower()[:2] + full[2:], full + "\n", full + " ",
+                                "\n" + full, full + "\r\n")):
+            evs.append({"id": "il%d_%d" % (i, k_), "op": "validate_isin", "id_": x, "out": outb(*call(utils.validate_isin, x))})
     # every numbering agency prefix
     for j, a in enumerate(agencies):
         b = (a + "000000000000")[:11]
